@@ -120,10 +120,24 @@ def one_repo(arg):
                     pass
         before = manifest(d)
         formats = [["--json"], ["--json", "--json-version=2"], ["-v"], []]
-        roots = [m.commits[0].oid] if m.commits and rng.random() < 0.4 else []
+        roots = []
+        from .. import oracle as O_
+        rcommits = [o for o in O_.reachable(list(m.refs.values())).values() if o.kind == "commit"]
+        if rcommits and rng.random() < 0.6:
+            # several ROOTs, some of them different spellings of the same object (which name is cited must not depend on
+            # the order in which the rev-parse children happen to finish)
+            c = sorted(rcommits, key=lambda o: -sum(1 for x in m.refs.values() if x is o))[0]
+            names = [n for n, o in m.refs.items() if o is c]
+            roots = [c.oid] + names[:2] + [c.oid[:12]]
+            if len(rcommits) > 1:
+                roots.append(rcommits[-1].oid)
+            rng.shuffle(roots)
         base = {}
+        # with ROOTs: either only the ROOTs are traversed (their spellings are then the only names available for the
+        # footnotes) or ROOTs in addition to selected references
+        sel = rng.choice([[], [], ["--branches", "--tags", "--remotes"]]) if roots else []
         for fa in formats:
-            r = R.sizer(sz, work, fa + ["--no-progress", "--branches", "--tags", "--remotes"] + roots if roots else fa + ["--no-progress"], tmpdir=scratch)
+            r = R.sizer(sz, work, fa + ["--no-progress"] + sel + roots, tmpdir=scratch)
             out["evals"] += 1
             if r.rc != 0:
                 out["viol"].append(("C17/run-failed", {"argv": fa, "stderr": r.err[-300:]}))
@@ -134,7 +148,7 @@ def one_repo(arg):
         os.makedirs(logdir, exist_ok=True)
         for k in range(nruns):
             fa = formats[k % len(formats)]
-            argv = fa + ["--branches", "--tags", "--remotes"] + roots if roots else list(fa)
+            argv = fa + sel + roots
             progress = rng.random() < 0.5
             argv = argv + (["--progress"] if progress else ["--no-progress"])
             gmp = rng.choice([1, 2, 3, 8, 16])
@@ -142,6 +156,10 @@ def one_repo(arg):
             rules = []
             mode = rng.choice(["plain", "delay", "delay", "record"])
             if mode == "delay":
+                for k2 in range(len(roots)):
+                    if rng.random() < 0.5:
+                        rules.append({"sig": "rev-parse --verify", "ord": k2, "mode": "delay", "pre_ms": rng.choice([5, 20, 60]),
+                                      "exit_ms": rng.choice([0, 15]), "max_ms": 100})
                 for sig in ("rev-list", "cat-file --batch-check", "cat-file --batch", "for-each-ref"):
                     if rng.random() < 0.7:
                         rules.append({"sig": sig, "ord": -1, "mode": "delay", "pre_ms": rng.choice([0, 0, 5, 30]),
@@ -230,7 +248,7 @@ def run(chk, b, tier):
     scratch = b.scratchdir()
     nrepos = 8 if tier == "quick" else 100
     nruns = 10 if tier == "quick" else 40
-    res = R.pmap(one_repo, [(R.SEED, i, sz, szr, shimdir, scratch, nruns) for i in range(nrepos)], nproc=8)
+    res = R.pmap(one_repo, [(R.SEED, i, sz, szr, shimdir, scratch, nruns) for i in range(nrepos)], nproc=8, chk=chk)
     orderings = set()
     syscalls = {}
     for i, r in enumerate(res):
